@@ -272,7 +272,7 @@ func docNamesDestination(doc, name string) bool {
 	n := regexp.QuoteMeta(name)
 	pats := []string{
 		`(?i)\b(sets?|fills?|overwrites?|modifies|mutates|updates|clears|zeroes|resets|populates)\s+(the\s+)?(slice\s+|vector\s+|buffer\s+|elements of\s+)?` + n + `\b`,
-		`(?i)\b(in|into|to)\s+` + n + `\b[^.;]*$|(?i)\b(writes?|stores?|puts?|places?|copies|copy|saves?|appends?|results?|output)\b[^.;]{0,60}\b(in|into|to)\s+(the\s+)?` + n + `\b`,
+		`(?i)\b(in|into|to)\s+` + n + `\b[^.;]*$|(?i)\b(writes?|stores?|puts?|places?|copies|copy|saves?|appends?|results?|output)\b[^.;]{0,120}\b(in|into|to)\s+(the\s+)?` + n + `\b`,
 		`(?i)\b` + n + `\b(\[[^\]]*\])?\s*(=|:=|←|<-|\+=|\*=|-=)[^=]`,
 		`(?i)\b` + n + `\b\s+(is|are|gets?|will be|must be)\s+(set|written|overwritten|filled|modified|updated|the (output|destination|result))`,
 		`(?i)\bin[- ]place\b[^.;]{0,40}\b` + n + `\b|\b` + n + `\b[^.;]{0,40}\bin[- ]place\b`,
